@@ -166,3 +166,71 @@ Example C05_ex_c_world :
   end = ([(1, 1, 0); (1, 1, 7); (1, 1, 1)], [(1, 1, 1); (1, 1, 1); (1, 1, 7); (1, 1, 0); (1, 1, 0)], [0%nat]).
 Proof. vm_compute. reflexivity. Qed.
 (* ==== end of block (unit sys) ==== *)
+
+(* ==== cpu.c thread list from source (unit cpuc) ==== *)
+(* Unit sys renders cpu_update / cpu_add_thread / cpu_remove_thread / cpu_migrate_thread of src/emu/cpu.c with find_thread
+   as a hand primitive of Emu/SysPre.v (a search loop with an early return is outside the core's loop form).  Unit cpuc
+   (translate/units/cpuc.py -> Gen/CpuC_gen.v over Emu/CpuCPre.v = SysPre.v + the search-loop combinator dl_search)
+   regenerates find_thread WITH its DL_FOREACH2 loop - the `for` statement is checked to be the macro's expansion, its body
+   is translated, cpu->threads is the Coq list of its elements in list order - and the four callers calling it.
+   Proofs/CpuCProofs.v: the generated find_thread is exactly the primitive (membership, NULL when absent), and the four
+   callers are exactly the functions of Gen/Sys_gen.v, so C05_cpu_update_from_source and
+   C05_affinity_event_in_c_world_from_source are statements about code in which find_thread is generated too.
+   On a NULL cpu the C dereferences NULL inside find_thread (E_TRAP in the generated code) where the primitive answered
+   "not found": the equalities are for a non-NULL cpu, which is what every caller passes.  Still primitives: the utlist
+   macros DL_APPEND2 / DL_DELETE2 (append / remove the element on the list: the pointer surgery of utlist.h is not
+   translated). *)
+From OV Require Emu.CpuCPre Gen.CpuC_gen Proofs.CpuCProofs.
+
+Theorem C05_cpu_lists_from_source :
+  (* find_thread: the thread itself when it is in cpu->threads, NULL otherwise; the state is not touched *)
+  (forall sx st c t, CpuC_gen.find_thread (Some c) t sx st = Ok (SysPre.find_thread sx st (Some c) t, st)) /\
+  (forall sx st c t, CpuC_gen.find_thread (Some c) (Some t) sx st =
+                     Ok (if mem_nat t (SysPre.c_threads (SysPre.scp st c)) then Some t else None, st)) /\
+  (* cpu_update (the counting loop over the list: nth_running / nth_active, th_running / th_active, the five channels) *)
+  CpuC_gen.cpu_update = Sys_gen.cpu_update /\
+  (* cpu_add_thread / cpu_remove_thread / cpu_migrate_thread: same refusals, same list, same counts, same channels *)
+  (forall sx st c t, CpuC_gen.cpu_add_thread c t sx st = Sys_gen.cpu_add_thread c t sx st) /\
+  (forall sx st c t, CpuC_gen.cpu_remove_thread (Some c) t sx st = Sys_gen.cpu_remove_thread (Some c) t sx st) /\
+  (forall sx st c t c', CpuC_gen.cpu_migrate_thread (Some c) t c' sx st = Sys_gen.cpu_migrate_thread (Some c) t c' sx st) /\
+  (* the two refusals, read off the list *)
+  (forall sx st c t, mem_nat t (SysPre.c_threads (SysPre.scp st c)) = true ->
+     CpuC_gen.cpu_add_thread (Some c) (Some t) sx st = Err SysPre.E_FAIL) /\
+  (forall sx st c t, mem_nat t (SysPre.c_threads (SysPre.scp st c)) = false ->
+     CpuC_gen.cpu_remove_thread (Some c) (Some t) sx st = Err SysPre.E_FAIL).
+Proof.
+  split; [exact CpuCProofs.find_thread_from_source|]. split; [intros sx st c t; apply CpuCProofs.find_thread_from_source|].
+  split; [exact CpuCProofs.cpu_update_same|]. split; [exact CpuCProofs.cpu_add_thread_from_source|].
+  split; [exact CpuCProofs.cpu_remove_thread_from_source|]. split; [exact CpuCProofs.cpu_migrate_thread_from_source|].
+  split; [exact CpuCProofs.add_refuses_present | exact CpuCProofs.remove_refuses_absent].
+Qed.
+Print Assumptions C05_cpu_lists_from_source.
+
+(* C05_cpu_update_from_source, restated for the function generated by unit cpuc *)
+Theorem C05_cpu_update_from_source_cpuc : forall (E : SysPre.senv) st0 st syn w c,
+  SysProofs.Rel (SysPre.se_sx E) st0 st syn w -> mem_nat c syn = false -> SysProofs.CpuOk (SysPre.se_sx E) st c ->
+  match GuardsPre.cpu_update (Some c) (SysPre.se_sx E) st with
+  | Ok (_, st') => exists w', CpuC_gen.cpu_update (Some c) E w = Ok (tt, w') /\
+                              SysProofs.Rel (SysPre.se_sx E) st0 st' (c :: syn) w' /\ SysProofs.frame_cpu w w' c
+  | Err e => exists e', CpuC_gen.cpu_update (Some c) E w = Err e' /\ e' <> SysPre.E_TRAP
+  end.
+Proof. rewrite CpuCProofs.cpu_update_same. exact SysProofs.sys_cpu_update. Qed.
+Print Assumptions C05_cpu_update_from_source_cpuc.
+
+(* non-vacuity, by computation on the generated code: a CPU whose list holds threads 2 and 0 *)
+Definition cc_env : SysPre.senv := {| SysPre.se_cb := {| ChanPre.cb_ret := 0 |}; SysPre.se_sx := {| s_threads := []; s_cpus := []; s_chans := []; s_lint := false |} |}.
+Definition cc_cpu : SysPre.scpu :=
+  {| SysPre.c_threads := [2%nat; 0%nat]; SysPre.c_nthreads := 2; SysPre.c_nrun := 0; SysPre.c_nact := 0; SysPre.c_thrun := None;
+     SysPre.c_thact := None; SysPre.c_virtual := 0; SysPre.c_gindex := 0; SysPre.c_chans := [] |}.
+Definition cc_st : SysPre.sys := {| SysPre.sths := []; SysPre.scps := [cc_cpu]; SysPre.sncb := 0 |}.
+
+Example C05_ex_find_thread_from_source :
+  CpuC_gen.find_thread (Some 0%nat) (Some 0%nat) cc_env cc_st = Ok (Some 0%nat, cc_st) /\
+  CpuC_gen.find_thread (Some 0%nat) (Some 2%nat) cc_env cc_st = Ok (Some 2%nat, cc_st) /\
+  CpuC_gen.find_thread (Some 0%nat) (Some 1%nat) cc_env cc_st = Ok (None, cc_st) /\
+  CpuC_gen.find_thread (Some 0%nat) None cc_env cc_st = Ok (None, cc_st) /\
+  CpuC_gen.find_thread None (Some 0%nat) cc_env cc_st = Err SysPre.E_TRAP /\
+  CpuC_gen.cpu_add_thread (Some 0%nat) (Some 2%nat) cc_env cc_st = Err SysPre.E_FAIL /\
+  CpuC_gen.cpu_remove_thread (Some 0%nat) (Some 1%nat) cc_env cc_st = Err SysPre.E_FAIL.
+Proof. vm_compute. repeat split. Qed.
+(* ==== end of block (unit cpuc) ==== *)
